@@ -17,7 +17,7 @@ import (
 
 func init() {
 	Registry["C20"] = Set{
-		Explanation: "Decides structural clauses of the cron scheduler: K1 field plumbing — crontab field i (minute, hour, day, month, weekday) is parsed with the descriptor of unit i and stored in the list IsRunAt consults for that unit (minute/hour/month: the AND list; day and weekday: their own OR lists), each descriptor carries the mask type and the value range of its unit, each mask type is tested against the matching time.Time accessor, and every settable bit index is below the type nibble (bit 60); the day/weekday combination rule is AND with each wildcard and OR when both are restricted; K2 AddJob returns the parser's error before the job is inserted and refuses a taken name; K3 the action is dominated by the 'disabled' test of the very job popped, and RemoveJob/DisableJob set that flag; K4 every path through the minute callback that is not the node-down exit re-arms the timer and reschedules (the recognised clock-skew early return is listed, not armed: it cannot be exhibited without controlling the clock); K5 a job enters the spool for a minute at most once: the push is behind a per-job compare-and-swap that the callback clears when it takes the job out. Added while probing: K1 the day/weekday combination is verified as a truth table by exhaustive abstract execution of cronSpecMask.IsRunAt over {list empty, list matches}; an empty list matches; K3 EnableJob clears the disabled flag; K6 the mask evaluation uses calendar operations only (no Time.Add/Sub/Truncate). K7 the constructor initialises the 'next minute' field with the minute the timer is armed for. K8 no critical section of the cron's lock calls anything that takes that lock again. K9 lock pairing — in every function that touches the cron lock a forward data flow over (held read/write, unlock deferred) shows: no return while the lock is held without a deferred unlock, no unlock (explicit or deferred) of a lock that is not held or of the other kind, no second lock (a leaked lock blocks every later job operation and the minute tick for ever, an unlock of an unlocked mutex is a fatal error that takes the node down).",
+		Explanation: "Decides structural clauses of the cron scheduler: K1 field plumbing — crontab field i (minute, hour, day, month, weekday) is parsed with the descriptor of unit i and stored in the list IsRunAt consults for that unit (minute/hour/month: the AND list; day and weekday: their own OR lists), each descriptor carries the mask type and the value range of its unit, each mask type is tested against the matching time.Time accessor, and every settable bit index is below the type nibble (bit 60); the day/weekday combination rule is AND with each wildcard and OR when both are restricted; K2 AddJob returns the parser's error before the job is inserted and refuses a taken name; K3 the action is dominated by the 'disabled' test of the very job popped, and RemoveJob/DisableJob set that flag; K4 every path through the minute callback that is not the node-down exit re-arms the timer and reschedules (the recognised clock-skew early return is listed, not armed: it cannot be exhibited without controlling the clock); K5 a job enters the spool for a minute at most once: the push is behind a per-job compare-and-swap that the callback clears when it takes the job out. Added while probing: K1 the day/weekday combination is verified as a truth table by exhaustive abstract execution of cronSpecMask.IsRunAt over {list empty, list matches}; an empty list matches; K3 EnableJob clears the disabled flag; K6 the mask evaluation uses calendar operations only (no Time.Add/Sub/Truncate). K7 the constructor initialises the 'next minute' field with the minute the timer is armed for. K8 no critical section of the cron's lock calls anything that takes that lock again. K9 lock pairing — in every function that touches the cron lock a forward data flow over (held read/write, unlock deferred) shows: no return while the lock is held without a deferred unlock, no unlock (explicit or deferred) of a lock that is not held or of the other kind, no second lock (a leaked lock blocks every later job operation and the minute tick for ever, an unlock of an unlocked mutex is a fatal error that takes the node down). K5 also: every job popped from the spool has its flag cleared on every path of that iteration (a job popped while disabled included). K10 the schedule scans advance by exactly one minute per iteration from the loop variable itself; no skip-ahead.",
 		NotDecided: []string{
 			"that the compiled masks denote exactly the crontab semantics for every spec and minute (lists, ranges, steps, L, xL, x#n)",
 			"time zones and daylight-saving transitions beyond the rule that the mask evaluation uses calendar operations only; the clock-skew early return of the minute callback (listed, not armed)",
@@ -412,6 +412,7 @@ func runC20(p *load.Program, r *core.Report) {
 	}
 
 	// ---- K8 the cron's lock is not re-entered
+	c20ScanStep(p, r)
 	lockPairing(p, r, "C20.K9 cron-lock-paired", "C20.K9", 9, func(o string) bool { return o == "node.cron" })
 	lockReentrancy(p, r, "C20.K8 cron-lock-not-reentered", "C20.K8", 9, func(o string) bool { return o == "node.cron" })
 
@@ -704,7 +705,43 @@ func runC20(p *load.Program, r *core.Report) {
 						}
 					}
 				})
-				if cleared {
+				// ... for EVERY job it takes out: no path from the successful Pop to the next Pop or to the
+				// end of the callback avoids the clearing store (a job popped while disabled included)
+				var pop ssa.Instruction
+				eachInstr(cb, func(in ssa.Instruction) {
+					cc := callCommon(in)
+					if cc != nil && cc.IsInvoke() && cc.Method.Name() == "Pop" {
+						if _, path, okp := fieldPath(cc.Value); okp && len(path) > 0 && path[len(path)-1] == "spool" {
+							pop = in
+						}
+					}
+				})
+				isClear := func(in ssa.Instruction) bool {
+					cc := callCommon(in)
+					if cc == nil {
+						return false
+					}
+					if sf := staticCallee(cc); sf != nil && sf.Name() == "Store" && sf.Pkg != nil && sf.Pkg.Pkg.Path() == "sync/atomic" {
+						if _, path, okp := fieldPath(cc.Args[0]); okp && len(path) > 0 && path[len(path)-1] == flag {
+							b, okb := constBool(cc.Args[1])
+							return okb && !b
+						}
+					}
+					return false
+				}
+				skipped := ""
+				if pop != nil {
+					if okv := tupleExtract(pop.(ssa.Value), 1); okv != nil {
+						if got, _, complete := boolEdges(okv); complete && len(got) > 0 {
+							if hit := reaches(edgePoints(got), isClear, func(in ssa.Instruction) bool { return in == pop || isReturn(in) }); hit != nil {
+								skipped = p.Pos(hit.Pos())
+							}
+						}
+					}
+				}
+				if cleared && skipped != "" {
+					r.Bad(rule5, key2, fn, p.Pos(cb.Pos()), "the callback clears the flag when it takes the job out of the spool", "a popped job can reach "+skipped+" without Store(false) on "+flag+": a job taken out while it was disabled keeps the flag although it is not in the spool any more — after EnableJob it is never queued again and never fires")
+				} else if cleared {
 					r.OK(rule5, key2, fn, p.Pos(cb.Pos()), "the callback clears the flag when it takes the job out of the spool", "Store(false) after Pop")
 				} else {
 					r.Bad(rule5, key2, fn, p.Pos(cb.Pos()), "the callback clears the flag when it takes the job out of the spool", "the flag is never cleared: the job fires once and never again")
@@ -714,6 +751,65 @@ func runC20(p *load.Program, r *core.Report) {
 			}
 		}
 	}
+}
+
+// c20ScanStep: K10 — the run times a job reports are found by walking the minutes of the period:
+// the loop variable starts at the first minute and is advanced by exactly one minute on every
+// iteration; nothing else assigns it. Any "skip ahead" has to reason about calendar boundaries in the
+// job's location (an hour of a +5:30 zone does not start on an hour of absolute time) and is refused.
+func c20ScanStep(p *load.Program, r *core.Report) {
+	rule := "C20.K10 schedule-scan-visits-every-minute"
+	r.Floor(rule, 2)
+	for _, f := range funcsOfPkgs(p, "node") {
+		if f.Parent() != nil || !strings.HasSuffix(namedOf(derefRecv(f)), "cron") {
+			continue
+		}
+		seq := 0
+		eachInstr(f, func(in ssa.Instruction) {
+			ph, ok := in.(*ssa.Phi)
+			if !ok || namedOf(ph.Type()) != "time.Time" || loopHeaderOf(in) == nil {
+				return
+			}
+			// a loop-carried time value: some edge is computed from the phi itself
+			var steps []ssa.Value
+			for _, e := range ph.Edges {
+				if c, okc := e.(*ssa.Call); okc && callsNamed(c, "Add") {
+					steps = append(steps, e)
+				}
+			}
+			if len(steps) == 0 {
+				return
+			}
+			seq++
+			fn := fname(f)
+			key := fmt.Sprintf("C20.K10|%s|scan#%d", fn, seq)
+			inst := "the scan advances by exactly one minute per iteration, from the value of the previous iteration"
+			var probs []string
+			for _, s := range steps {
+				c := s.(*ssa.Call)
+				args := c.Common().Args
+				if len(args) != 2 || args[0] != ssa.Value(ph) {
+					probs = append(probs, "the next value is not computed from the loop variable itself (it was changed inside the body)")
+					continue
+				}
+				if d, okd := constInt(args[1]); !okd || d != 60000000000 {
+					probs = append(probs, "the step is not the constant time.Minute")
+				}
+			}
+			if len(probs) > 0 {
+				r.Bad(rule, key, fn, p.Pos(in.Pos()), inst, strings.Join(uniq(probs), "; ")+": minutes are skipped — run times the spec denotes are not reported (for jobs in time zones whose offset is not a whole number of hours a skip to 'the next hour' of absolute time misses the first 30 or 45 minutes of every matching hour)")
+			} else {
+				r.OK(rule, key, fn, p.Pos(in.Pos()), inst, "now = now.Add(time.Minute) is the only assignment in the loop")
+			}
+		})
+	}
+}
+
+func derefRecv(f *ssa.Function) types.Type {
+	if f.Signature.Recv() == nil {
+		return types.Typ[types.Invalid]
+	}
+	return f.Signature.Recv().Type()
 }
 
 var _ = load.Module
